@@ -64,6 +64,7 @@ MENU = [
     ("dup_everything", b"class X:\n    def m(self): pass\n    def m(self): pass\nclass X:\n    m = 1\ndef X(): pass\nX = 2\n"),
     ("fields_bad", b"class C:\n    '''\n    @ivar: no name\n    @ivar a b: two names\n    @type q: L{nope}\n    @param self: x\n    @raise: e\n    @return\n    '''\n    def __init__(self):\n        self.a = self.b = 1\n        '''doc'''\n"),
     ("lambda_defaults", b"f = lambda a=(lambda: 1), *b, c={1: [2, (3,)]}, **d: a\ndef g(x=f(), y=[i for i in range(3) if i], z=not 1 < 2 < 3): pass\nCONST: 'Final[int]' = 1 if g else 2\n"),
+    ("regex_consts", b"import re\nA = re.compile('(?L)\\\\w+')\nB = re.compile('[.*')\nC = re.compile(b'(?u)x')\nD = re.compile('a{99999999999}')\nE = re.compile('(?P<n>x)(?P=n)(?#c)', re.I | 64)\ndef f(p=re.compile('(?au)x'), q=re.compile(r'\\1')): pass\n"),
     ("empty", b""),
 ]
 NM = len(MENU)
@@ -165,7 +166,7 @@ NMOD = tier(2, 3)
     parts=lambda: list(range(NM)), timeout=(300, 3000), cls="E", tracing="concrete-after-choice", twin="first", unblock=UNBLOCK,
     code=["pydoctor.model.System.addPackage/analyzeModule/process/processModule", "pydoctor.astbuilder.ASTBuilder.parseFile/processModuleAST", "pydoctor.astbuilder.parseAll/parseDocformat/ModuleVistor.*",
           "pydoctor.model.defaultPostProcess", "pydoctor.templatewriter.writer.TemplateWriter", "pydoctor.sphinx.SphinxInventoryWriter", "pydoctor.driver.main (exit status)"],
-    bounds={"quick": "packages of 2 modules drawn from a menu of 30 module files (5 that do not parse - syntax error, NUL byte, inconsistent indentation, undecodable bytes, unknown coding -, un-evaluable __all__ / __docformat__, every special-cased statement form, duplicates, bad fields, empty file), docformat chosen by the pair (900 packages)",
+    bounds={"quick": "packages of 2 modules drawn from a menu of 31 module files (5 that do not parse - syntax error, NUL byte, inconsistent indentation, undecodable bytes, unknown coding -, un-evaluable __all__ / __docformat__, every special-cased statement form, duplicates, bad fields, empty file), docformat chosen by the pair (900 packages)",
             "thorough": "3 modules (27 000 packages) x docformat chosen by the triple"},
     outside="everything not assembled from the menu; hangs; the command-line front end (options parsing, intersphinx download)",
 )
